@@ -742,6 +742,25 @@ let c17_authzm t =
       match api_serve authz_malformed_is_absent api_router cfg (zs_of_string pat) m (c17_hdr h) with
       | O401 -> "401" | O400 -> "400" | OHandler _ -> "handler" | OFallback -> "fallback") reqs
 
+
+(* ---------- C12: catch-up ---------- *)
+(* catchup <from|-1> <first> <peek|-> <watch> <nreads> {r} <nq> {id} <nlive> {id}  -> ids | stopped *)
+let c12_catchup t =
+  let from = tz t in let first = tz t in
+  let from = if int_of_z from < 0 then first else from in
+  let peek = (match tok t with "-" -> None | x -> Some (z_of_string x)) in
+  let watch = tz t in
+  let nr = ti t in let reads = tlist t nr tz in
+  let nq = ti t in let q = tlist t nq tz in
+  let nl = ti t in let live = tlist t nl tz in
+  let (d, stopped) = catch_up catchup_attempts forward_filters
+      { ci_from = from; ci_first = first; ci_peek = peek; ci_watch = watch; ci_reads = reads; ci_qrest = q; ci_live = live } in
+  "ids=" ^ join "," sz d ^ " stopped=" ^ sb stopped
+(* chk_stream <start> <n> {id} *)
+let c12_chk t =
+  let start = tz t in let n = ti t in let ids = tlist t n tz in
+  "ok=" ^ sb (consecutive_from start ids)
+
 (* ---------- dispatch ---------- *)
 let handlers : (string * (toks -> string)) list ref = ref [
   "chunks", c08_chunks;
@@ -756,6 +775,8 @@ let handlers : (string * (toks -> string)) list ref = ref [
   "chk_members", c18_chk;
   "crdtm", c01_crdtm;
   "ivm", c11_ivm;
+  "catchup", c12_catchup;
+  "chk_stream", c12_chk;
   "authz", c17_authzm;
   "schema", c15_schema;
   "updm", c14_updm;
